@@ -58,8 +58,7 @@ def lifecycle_set_follows(ck, C):
             flag_false = []
             for sw in T.switches_on_expr(dunreg, lambda e: e[0] == "place" and "needs_additional_lifecycle_events" in e[1]):
                 flag_false += T.edges_of_value(dunreg, sw, False)
-            exempt = [x for _, x in flag_false]
-            bad = T.t2_all_exits(dunreg, starts, U + exempt)
+            bad = T.t2_all_exits(dunreg, starts, U, removed_edges=flag_false)
             ck.verdict(bad is None, C, "T2-all-exits", dunreg, "unregister-always-drops-entry", "every path on which the dispatcher could be borrowed removes the token from the set (unless the source never opted in), including the path on which the source's own unregister fails", "a path returns from unregister with the token still in the lifecycle set (the source's unregister failed before the set was updated): the callers empty the slot regardless and the next dispatch hits unreachable!()", site=dunreg.where(t.bb), path=path_descr(dunreg, bad) if bad else None)
     sunreg = ck.body(C, "AdditionalLifecycleEventsSet::unregister")
     rets = T.calls(sunreg, name="retain")
@@ -162,12 +161,12 @@ def run(ck):
     for cs in T.calls(b, name="is_empty"):
         if T.path_has(b, cs.args[0], ".values") or T.path_has(b, cs.args[0], ".sources_with_additional_lifecycle_events"):
             tr, fa = T.bool_split(b, cs.bb)
-            bypass += [x for _, x in tr]
+            bypass += tr
     starts = [x for _, x in ok_e]
     if not starts:
         ck.anchor_missing("3", "T2-all-exits", "success edge of Poll::poll")
     else:
-        bad = T.t2_all_exits(b, starts, [r2[0]] + bypass, exits=set(b.return_blocks()) | {dl.header})
+        bad = T.t2_all_exits(b, starts, [r2[0]], exits=set(b.return_blocks()) | {dl.header}, removed_edges=bypass)
         ck.verdict(bad is None, "3", "T2-all-exits", b, "poll-ok=>before_handle_events-region", "every path from a successful poll to the batch loop or to a return enters the before_handle_events loop (or skips it only because the lifecycle set is empty)", "a path from a successful poll reaches the batch loop / a return without running the before_handle_events hooks", site=b.where(poll.bb), path=path_descr(b, bad) if bad else None)
     # inside each region: every iteration reaches the hook on the dispatcher looked up for its token
     for name, (h, blocks), hook in (("before_sleep", r1, bs), ("before_handle_events", r2, bh)):
